@@ -106,7 +106,8 @@ def static_fresh_workspaces():
             problems.append(f'{a.id} is not bound by an unconditional `{a.id} = np.empty(...)` before the engine call '
                             f'(last binding: {ast.unparse(last)[:80] if last is not None else None})')
     ok = not problems
-    return [Extra(name, 'static', 'discharged' if ok else 'failed', 'ast-static', round(time.time() - t0, 4),
+    # another way of allocating is not a defect by itself: `unknown`, decided by the replay (histories of calls on one object)
+    return [Extra(name, 'static', 'discharged' if ok else 'unknown', 'ast-static', round(time.time() - t0, 4),
                   'g, h, bh are fresh arrays of this call' if ok else '; '.join(problems), None if ok else {'problems': problems})]
 
 
